@@ -99,7 +99,7 @@ theorem field_roundtrip (P : Pair) (o : Nat) (params : Nat → Nat)
     (hok : fieldOK P o = true) (hlt : params o < 2 ^ P.W o) :
     (decode P.parser (encode P.setterBits params)).getD o 0 = params o := by
   simp only [fieldOK, Bool.and_eq_true] at hok
-  have h1 := hok.1
+  have h1 := hok.1.1
   rw [srcAt_fun] at h1
   by_cases ho : o < P.parser.length
   · rw [decode_getD _ _ _ ho]
@@ -115,10 +115,83 @@ theorem field_roundtrip (P : Pair) (o : Nat) (params : Nat → Nat)
       simp [decode, List.getD_eq_getElem?_getD, List.getElem?_eq_none (by simp; omega : (List.map _ P.parser).length ≤ o)]
     omega
 
+/-- a field of exactly `n` mirrored bits decodes to the low `n` bits of the parameter, whatever its value -/
+theorem decodeOne_mod (S : Setter) (params : Nat → Nat) (o n : Nat) (bits : OutBits)
+    (hok : outOK (fun k => S[k]?) o n bits = true) (hlen : bits.length = n) :
+    decodeOne (encode S params) bits = params o % 2 ^ n := by
+  simp only [outOK, Bool.and_eq_true, decide_eq_true_eq, List.all_eq_true, List.mem_range] at hok
+  obtain ⟨_, hbits⟩ := hok
+  apply Nat.eq_of_testBit_eq
+  intro i
+  unfold decodeOne
+  rw [ofBits_testBit, Nat.testBit_mod_two_pow]
+  by_cases hi : i < bits.length
+  · have hb := hbits i hi
+    have hin : i < n := by omega
+    rw [List.getD_eq_getElem?_getD, List.getElem?_map]
+    have hget : bits[i]? = some (bits.getD i none) := by
+      rw [List.getD_eq_getElem?_getD, List.getElem?_eq_getElem hi]; rfl
+    rw [hget]
+    simp only [Option.map_some, Option.getD_some, hin, decide_true, Bool.true_and]
+    generalize bits.getD i none = b at hb
+    cases b with
+    | none => simp only [bitOK, decide_eq_true_eq] at hb; omega
+    | some k =>
+      simp only [bitOK, hin, ↓reduceIte, beq_iff_eq] at hb
+      simp [encode, List.getD_eq_getElem?_getD, List.getElem?_map, hb, srcVal]
+  · have hge : bits.length ≤ i := by omega
+    rw [List.getD_eq_getElem?_getD, List.getElem?_map, List.getElem?_eq_none hge]
+    have : ¬ i < n := by omega
+    simp [this]
+
+/-- the value the parser RETURNS for a field (after an NA remap, if the field has one) is the value that was set, for
+every value in the field's domain -/
+theorem field_value_roundtrip (P : Pair) (o : Nat) (params : Nat → Nat)
+    (hok : fieldOK P o = true) (hdom : P.inDomain o (params o)) :
+    P.value o ((decode P.parser (encode P.setterBits params)).getD o 0) = params o := by
+  cases hr : lookupRemap P.naRemap o with
+  | none =>
+    simp only [Pair.inDomain, hr] at hdom
+    simp only [Pair.value, hr]
+    exact field_roundtrip P o params hok hdom
+  | some nu =>
+    obtain ⟨n, u⟩ := nu
+    simp only [Pair.inDomain, hr] at hdom
+    simp only [Pair.value, hr]
+    have hok' := hok
+    simp only [fieldOK, Bool.and_eq_true, remapOK, hr, decide_eq_true_eq, beq_iff_eq] at hok'
+    obtain ⟨⟨h1, _⟩, ⟨⟨hn, hW⟩, hlen⟩, hu⟩ := hok'
+    rw [srcAt_fun, hW] at h1
+    have ho : o < P.parser.length := by
+      rcases Nat.lt_or_ge o P.parser.length with h | h
+      · exact h
+      · have : P.parser.getD o [] = [] := by
+          simp [List.getD_eq_getElem?_getD, List.getElem?_eq_none h]
+        rw [this] at hlen; simp at hlen; omega
+    rw [decode_getD _ _ _ ho, decodeOne_mod P.setterBits params o n _ h1 hlen]
+    have hpos : 0 < 2 ^ n := Nat.two_pow_pos n
+    rcases hdom with hlt | heq
+    · have hm : params o % 2 ^ n = params o := Nat.mod_eq_of_lt (by omega)
+      rw [hm, if_neg (by omega)]
+    · rw [heq, hu, if_pos rfl]
+
+/-- a field with an obligation that the parser has no entry for has no NA remap (its value is the raw 0) -/
+theorem value_out_of_range (P : Pair) (o : Nat) (hok : fieldOK P o = true) (h : P.parser.length ≤ o) :
+    P.value o 0 = 0 := by
+  cases hr : lookupRemap P.naRemap o with
+  | none => simp [Pair.value, hr]
+  | some nu =>
+    obtain ⟨n, u⟩ := nu
+    simp only [fieldOK, Bool.and_eq_true, remapOK, hr, decide_eq_true_eq, beq_iff_eq] at hok
+    obtain ⟨_, ⟨⟨hn, _⟩, hlen⟩, _⟩ := hok
+    have : P.parser.getD o [] = [] := by
+      simp [List.getD_eq_getElem?_getD, List.getElem?_eq_none h]
+    rw [this] at hlen; simp at hlen; omega
+
 theorem field_scaled (P : Pair) (o : Nat) (hok : fieldOK P o = true) :
     lookupRec P.setScaled o = lookupRec P.parseScaled o := by
   simp only [fieldOK, Bool.and_eq_true, decide_eq_true_eq] at hok
-  exact hok.2
+  exact hok.1.2
 
 /-- the constants the parser insists on are in the payload the setter produces -/
 theorem payloadGuard_holds (P : Pair) (params : Nat → Nat) (h : payloadGuardOK P = true) :
@@ -136,7 +209,7 @@ theorem payloadGuard_holds (P : Pair) (params : Nat → Nat) (h : payloadGuardOK
 theorem bit_in_range (P : Pair) (o : Nat) (hok : fieldOK P o = true) (i k : Nat)
     (hk : (P.parser.getD o [])[i]? = some (some k)) : k < P.setterBits.length := by
   simp only [fieldOK, Bool.and_eq_true] at hok
-  have h1 := hok.1
+  have h1 := hok.1.1
   simp only [outOK, Bool.and_eq_true, decide_eq_true_eq, List.all_eq_true, List.mem_range] at h1
   have hi : i < (P.parser.getD o []).length := by
     rcases Nat.lt_or_ge i (P.parser.getD o []).length with h | h
